@@ -2,7 +2,7 @@
 comparison with LinSolve.v), plus sampling of the real backends against the backend contract (labelled as such)."""
 import sys
 
-sys.path.insert(0, "/repo")
+sys.path.insert(0, __import__("os").environ.get("VERIF_REPO", "/repo"))
 import numpy as np
 import scipy.sparse as sps
 
